@@ -1,0 +1,19 @@
+//go:build verif
+
+package delay
+
+import (
+	"context"
+	"time"
+)
+
+// VerifParts exposes the two fields of a Delay to the verification harness.
+func VerifParts(d Delay) (time.Time, time.Duration) {
+	return d.time, d.duration
+}
+
+// VerifFromContext reports the delay stored in ctx by WithContext, if any.
+func VerifFromContext(ctx context.Context) (Delay, bool) {
+	d, ok := ctx.Value(delayContextKey).(Delay)
+	return d, ok
+}
